@@ -444,8 +444,20 @@ func applyMetricsOperatorOnSegments(mQuery *structs.MetricsQuery, allSearchReqes
 			continue
 		}
 
+		// The requests of one tags tree holder can be a mix of rotated and unrotated segments.
+		// Only the unrotated request carries the Mid that identifies the in-memory tags tree;
+		// use it if there is one, so that series which were first seen after the last tags
+		// tree flush are found too.
+		tthSearchReq := allMSearchReqs[0]
+		for _, mSeg := range allMSearchReqs {
+			if mSeg.QueryType == structs.UNROTATED_METRICS_SEARCH {
+				tthSearchReq = mSeg
+				break
+			}
+		}
+
 		err = tagstree.SearchAndInsertTSIDs(mQuery, allMatchedTsids, metricNames, tthBaseDir,
-			allMSearchReqs[0], qid)
+			tthSearchReq, qid)
 		if err != nil {
 			mRes.AddError(err)
 			continue
